@@ -314,12 +314,12 @@ theorem rdRel_settle (c : Conn) (tag : String) (sid : Nat) (err : Option Err) (e
 /-- `dispatch` with projections instead of destructuring `let`s -/
 theorem dispatch_eq (c : Conn) (f : Frame.Frame) :
     dispatch c f = match lookupA c.reqQueued f.stream with
-      | none => (c, false)
+      | none => (skipHeaders c f, false)
       | some tag =>
         match getReq c tag with
-        | none => (c, false)
+        | none => (skipHeaders c f, false)
         | some r =>
-          if r.done then ({ c with reqQueued := eraseA c.reqQueued f.stream }, false)
+          if r.done then ({ (skipHeaders c f) with reqQueued := eraseA c.reqQueued f.stream }, false)
           else settle (readStream (prepare c f).1 tag r f).1 tag f.stream (readStream (prepare c f).1 tag r f).2
                  (prepare c f).2 := by
   unfold dispatch
@@ -331,16 +331,22 @@ theorem dispatch_eq (c : Conn) (f : Frame.Frame) :
     | none => rfl
     | some r => rfl
 
+theorem rdRel_skipHeaders (c : Conn) (f : Frame.Frame) : RdRel c (skipHeaders c f) := by
+  obtain ⟨d, b, e, h⟩ := skipHeaders_shape c f
+  rw [h]; exact RdRel.of_fields rfl rfl rfl rfl rfl id Or.inl (fun _ h => .inl h)
+
 theorem rdRel_dispatch (c : Conn) (f : Frame.Frame) (hk : Keys c) : RdRel c (dispatch c f).1 := by
   rw [dispatch_eq]
   split
-  · exact RdRel.refl c
+  · exact rdRel_skipHeaders c f
   · rename_i tag hl
     split
-    · exact RdRel.refl c
+    · exact rdRel_skipHeaders c f
     · rename_i r hr
       split
       · rename_i hd
+        obtain ⟨d, b, e, hsk⟩ := skipHeaders_shape c f
+        rw [hsk]
         refine ⟨MapLe.of_reqs rfl, ?_, eraseA_sublist _ _, rfl, rfl, rfl, id, Or.inl, fun _ h => .inl h⟩
         intro t ⟨s, hm⟩
         by_cases hs : s = f.stream
@@ -348,8 +354,8 @@ theorem rdRel_dispatch (c : Conn) (f : Frame.Frame) (hk : Keys c) : RdRel c (dis
           subst hs
           rw [hk.unique hl t hm]
           intro r' hr'
-          rw [show getReq { c with reqQueued := eraseA c.reqQueued f.stream } tag = getReq c tag from rfl, hr] at hr'
-          cases hr'; exact .inl hd
+          have hr'' : getReq c tag = some r' := hr'
+          rw [hr] at hr''; cases hr''; exact .inl hd
         · left; exact ⟨s, mem_eraseA.mpr ⟨hm, hs⟩⟩
       · have p := rdRel_prepare c f
         have hr1 : getReq (prepare c f).1 tag = some r := by
